@@ -35,6 +35,15 @@ EXHAUSTIVE = {}
 _K = None
 
 
+def _wrap_kw(wrap):
+    """wrap_env=False is the documented default: half of the non-wrapping worlds are built without naming it."""
+    _wrap_kw.n += 1
+    return {} if (wrap is False and _wrap_kw.n % 2) else {'wrap_env': wrap}
+
+
+_wrap_kw.n = 0
+
+
 def fixtures():
     global _K
     import ECAgent.Core as core
@@ -58,16 +67,16 @@ def make_world(core, envs, rng, model):
     wrap = rng.random() < 0.3
     if kind == 'space':
         ext = [rng.choice([1.0, 2.5, 7.125, 4.0, 0.5]), rng.choice([0.0, 0.0, 3.0, 6.5, 0.25]), rng.choice([0.0, 0.0, 2.0, 0.75])]
-        env = envs.SpaceWorld(model, *ext, wrap_env=wrap)
+        env = envs.SpaceWorld(model, *ext, **_wrap_kw(wrap))
     elif kind == 'discrete':
         ext = [rng.choice([0, 1, 3, 5]), rng.choice([0, 2, 4]), rng.choice([0, 1, 3])]
-        env = envs.DiscreteWorld(model, *ext, wrap_env=wrap)
+        env = envs.DiscreteWorld(model, *ext, **_wrap_kw(wrap))
     elif kind == 'line':
         ext = [rng.choice([1, 2, 6]), 0, 0]
-        env = envs.LineWorld(model, ext[0], wrap_env=wrap)
+        env = envs.LineWorld(model, ext[0], **_wrap_kw(wrap))
     else:
         ext = [rng.choice([1, 3, 5]), rng.choice([1, 2, 4]), 0]
-        env = envs.GridWorld(model, ext[0], ext[1], wrap_env=wrap)
+        env = envs.GridWorld(model, ext[0], ext[1], **_wrap_kw(wrap))
     model.environment = env
     return kind, env, ext
 
@@ -84,7 +93,7 @@ def case_history(ctx, case):
     step = 1 if grid else 0.125
     from vlib import reps
     import warnings
-    ids = [reps.as_str(rng, f'id{j}', allow_enum=False) for j in range(rng.randint(4, 6))]     # identifiers may be str-subclass instances
+    ids = [reps.as_str(rng, n_, allow_enum=False) for n_ in reps.odd_ids(rng, 'id', rng.randint(4, 6), 0.35)]     # str-subclass instances, pattern-like / unnormalised ids
     # user agent classes: plain, and one whose truth value is its own business ('alive' flag: False) - still an agent like any other
     Mortal = type('Mortal', (core.Agent,), {'__bool__': lambda self: False})
     universe = []
@@ -148,6 +157,22 @@ def case_history(ctx, case):
               expected=[a.id for a in exp], observed=[getattr(a, 'id', a) for a in got_iter], trace=trace[-12:])
         listing = env.get_agents()
         check(same_objects(listing, exp), 'get_agents() differs from the live agents in joining order', trace=trace[-12:])
+        if exp and len(exp) <= 10 and rng.random() < 0.25:
+            # several iterations in progress at once (nested loops, zip, a half-consumed iterator): each visits the live agents in joining order
+            pairs = [(a, b) for a in env for b in env]
+            zipped = list(zip(env, env))
+            it = iter(env)
+            first = next(it)
+            whole = list(env)
+            rest = [first] + list(it)
+            ctx.count('simultaneous_iterations')
+            check(same_objects([a for a, _ in pairs], [a for a in exp for _ in exp]) and same_objects([b for _, b in pairs], [b for _ in exp for b in exp]),
+                  'a nested loop over the environment does not pair every live agent with every live agent in joining order',
+                  expected_pairs=len(exp) ** 2, observed_pairs=len(pairs), trace=trace[-12:])
+            check(same_objects([a for a, _ in zipped], exp) and same_objects([b for _, b in zipped], exp),
+                  'zip(env, env) does not visit the live agents in joining order twice', observed=[(a.id, b.id) for a, b in zipped], trace=trace[-12:])
+            check(same_objects(whole, exp) and same_objects(rest, exp), 'an iteration in progress is disturbed by another iteration over the same environment',
+                  expected=[a.id for a in exp], resumed=[a.id for a in rest], trace=trace[-12:])
         if rng.random() < 0.3:
             # what the caller does with a listing it was handed is its own business: the environment's views stay in agreement
             junk = rng.choice(['reverse', 'clear', 'append', 'shuffle'])
@@ -169,6 +194,10 @@ def case_history(ctx, case):
             check(env.get_agent(i) is a, f'get_agent({i!r}) returned the wrong object', trace=trace[-12:])
             if a is not None:
                 check(env.get_agent(i, True) is a, f'strict get_agent({i!r}) returned the wrong object')
+            if rng.random() < 0.1:
+                from vlib import reps as _reps
+                ctx.count('deprecated_alias_calls')
+                check(_reps.deprecated_call(env.getAgent, i) is a, f'the deprecated spelling getAgent({i!r}) does not answer like get_agent', trace=trace[-12:])
         if spatial:
             for a in universe:
                 has = P in a.components
@@ -226,7 +255,8 @@ def case_history(ctx, case):
                 for k in range(3):
                     if not (ext[k] and ext[k] > 0):
                         continue
-                    for side, v in (('low', -step), ('high', ext[k] - off + step), ('far', rng.choice([-10 ** 9, 10 ** 9]))):
+                    for side, v in (('low', -step), ('high', ext[k] - off + step), ('far', rng.choice([-10 ** 9, 10 ** 9]))) + \
+                            ((('low', -0.5), ('high', ext[k] - off + 0.5)) if grid and rng.random() < 0.3 else ()):
                         b = rng.choice(free)
                         pos = list(rnd_pos())
                         pos[k] = v
